@@ -73,6 +73,7 @@ impl SecretKey {
     #[verifier::external_body] pub fn from_be_bytes(bytes: &[u8]) -> (r: Result<SecretKey, CurveError>)
         ensures match r { Ok(k) => valid_secret(bytes@) && k.d@ == bytes@ && bytes@.len() == 32, Err(_) => !valid_secret(bytes@) } { unimplemented!() }
     #[verifier::external_body] pub fn to_be_bytes(&self) -> (r: FieldBytes) ensures r@ == self.d@, r@.len() == 32 { unimplemented!() }
+    #[verifier::external_body] pub fn to_be_bytes_v(&self) -> (r: FieldBytes) ensures r@ == self.d@, r@.len() == 32 { unimplemented!() }  // (name after rule R1)
     #[verifier::external_body] pub fn to_nonzero_scalar(&self) -> (r: NonZeroScalar) ensures r.v@ == self.d@ { unimplemented!() }
 }
 
@@ -126,10 +127,51 @@ pub mod recoverable {
 }
 pub mod ecdsa { pub use super::RecoveryId; pub use super::EcdsaError as Error; }
 pub struct VerifyingKey { pub pt: Ghost<Seq<u8>> }
-pub struct EncodedPoint { pub b: Ghost<Seq<u8>> }
-impl EncodedPoint {
+pub struct Secp256k1;
+pub struct Sec1Error;
+impl Sec1Error { #[verifier::external_body] pub fn to_string(&self) -> String { unimplemented!() } }
+pub struct EncodedPoint<C = Secp256k1> { pub b: Ghost<Seq<u8>>, pub _c: core::marker::PhantomData<C> }
+impl<C> Clone for EncodedPoint<C> { #[verifier::external_body] fn clone(&self) -> (r: Self) ensures r.b@ == self.b@ { unimplemented!() } }
+pub enum Coordinates<'a> { Identity, Compact { x: &'a FieldBytes }, Compressed { x: &'a FieldBytes, y_is_odd: bool }, Uncompressed { x: &'a FieldBytes, y: &'a FieldBytes } }
+// the coordinates a SEC1 string carries, as spec functions of the bytes
+pub uninterp spec fn sec1_tag(b: Seq<u8>) -> int;   // 0 identity, 2/3 compressed, 4 uncompressed, 5 compact
+impl<C> EncodedPoint<C> {
+    #[verifier::external_body] pub fn from_bytes<S: AsRef<[u8]>>(bytes: S) -> (r: Result<EncodedPoint<C>, Sec1Error>)
+        ensures match r { Ok(p) => sec1_framing_ok(bytes.bytes_v()) && p.b@ == bytes.bytes_v(), Err(_) => !sec1_framing_ok(bytes.bytes_v()) } { unimplemented!() }
     #[verifier::external_body] pub fn as_bytes(&self) -> (r: &[u8]) ensures r@ == self.b@ { unimplemented!() }
     #[verifier::external_body] pub fn is_compressed(&self) -> (r: bool) ensures r == sec1_is_compressed(self.b@) { unimplemented!() }
+    // re-encodes the same point in compressed form (identity stays identity)
+    #[verifier::external_body] pub fn compress(&self) -> (r: EncodedPoint<C>)
+        ensures sec1_valid(self.b@) ==> r.b@ == sec1_form(sec1_point(self.b@), true) { unimplemented!() }
+    #[verifier::external_body] pub fn coordinates<'a>(&'a self) -> (r: Coordinates<'a>)
+        ensures sec1_valid(self.b@) ==> (match r { Coordinates::Compressed { x, y_is_odd } => sec1_is_compressed(self.b@) && decompress_spec(x@, y_is_odd) == Some(sec1_point(self.b@)),
+                                                  Coordinates::Uncompressed { x, y } => !sec1_is_compressed(self.b@), _ => false }) { unimplemented!() }
+}
+pub uninterp spec fn decompress_spec(x: Seq<u8>, y_is_odd: bool) -> Option<Seq<u8>>;   // the curve point with this x and y parity, if any
+pub struct Choice { pub v: bool }
+impl From<u8> for Choice { #[verifier::external_body] fn from(b: u8) -> (r: Choice) ensures r.v == (b != 0) { unimplemented!() } }
+pub struct CtOption<T> { pub o: Option<T> }
+impl<T> CtOption<T> {
+    #[verifier::external_body] pub fn map<U, F: FnOnce(T) -> U>(self, f: F) -> (r: CtOption<U>)
+        requires self.o is Some ==> f.requires((self.o->Some_0,))
+        ensures self.o is None ==> r.o is None, self.o is Some ==> r.o is Some && f.ensures((self.o->Some_0,), r.o->Some_0) { unimplemented!() }
+}
+impl<T> From<CtOption<T>> for Option<T> { #[verifier::external_body] fn from(c: CtOption<T>) -> (r: Option<T>) ensures r == c.o { unimplemented!() } }
+pub struct AffinePoint { pub pt: Ghost<Seq<u8>> }
+impl AffinePoint {
+    #[verifier::external_body] pub fn decompress(x: &FieldBytes, y_is_odd: Choice) -> (r: CtOption<AffinePoint>)
+        ensures match r.o { Some(p) => decompress_spec(x@, y_is_odd.v) == Some(p.pt@), None => decompress_spec(x@, y_is_odd.v) is None } { unimplemented!() }
+    #[verifier::external_body] pub fn to_encoded_point(&self, compress: bool) -> (r: EncodedPoint) ensures r.b@ == sec1_form(self.pt@, compress), sec1_valid(r.b@) { unimplemented!() }
+}
+pub struct K256PublicKey { pub pt: Ghost<Seq<u8>> }
+impl K256PublicKey {
+    #[verifier::external_body] pub fn from_sec1_bytes(bytes: &[u8]) -> (r: Result<K256PublicKey, CurveError>)
+        ensures match r { Ok(p) => sec1_valid(bytes@) && p.pt@ == sec1_point(bytes@), Err(_) => !sec1_valid(bytes@) } { unimplemented!() }
+    #[verifier::external_body] pub fn as_affine(&self) -> (r: &AffinePoint) ensures r.pt@ == self.pt@ { unimplemented!() }
+    #[verifier::external_body] pub fn to_encoded_point(&self, compress: bool) -> (r: EncodedPoint) ensures r.b@ == sec1_form(self.pt@, compress), sec1_valid(r.b@) { unimplemented!() }
+}
+impl SecretKey {
+    #[verifier::external_body] pub fn public_key(&self) -> (r: K256PublicKey) ensures r.pt@ == pub_of(self.d@) { unimplemented!() }
 }
 impl VerifyingKey {
     #[verifier::external_body] pub fn to_encoded_point(&self, compress: bool) -> (r: EncodedPoint) ensures r.b@ == sec1_form(self.pt@, compress), sec1_valid(r.b@) { unimplemented!() }
@@ -147,6 +189,16 @@ pub mod hex {
     #[verifier::external_body] pub fn decode(s: &str) -> (r: Result<Vec<u8>, FromHexError>)
         ensures match r { Ok(v) => hex_dec(s@) == Some(v@), Err(_) => hex_dec(s@) is None } { unimplemented!() }
 }
-pub mod k256 { pub mod ecdsa { pub use super::super::SecpSignature as Signature; } }
+pub mod k256 { pub mod ecdsa { pub use super::super::SecpSignature as Signature; } pub use super::K256PublicKey as PublicKey; pub use super::SecretKey; }
 pub assume_specification<T> [<[T]>::split_last] (s: &[T]) -> (r: Option<(&T, &[T])>)
     ensures s@.len() == 0 ==> r is None, s@.len() > 0 ==> r is Some && *r->Some_0.0 == s@.last() && r->Some_0.1@ == s@.drop_last();
+pub mod bs58 {
+    use super::*;
+    pub struct EncodeBuilder { pub b: Ghost<Seq<u8>> }
+    pub struct DecodeBuilder { pub s: Ghost<Seq<char>> }
+    #[verifier::external_body] pub fn encode<T: AsRef<[u8]>>(data: T) -> (r: EncodeBuilder) ensures r.b@ == data.bytes_v() { unimplemented!() }
+    #[verifier::external_body] pub fn decode(s: &str) -> (r: DecodeBuilder) ensures r.s@ == s@ { unimplemented!() }
+    impl EncodeBuilder { #[verifier::external_body] pub fn into_string(self) -> (r: String) ensures r@ == b58_enc(self.b@) { unimplemented!() } }
+    impl DecodeBuilder { #[verifier::external_body] pub fn into_vec(self) -> (r: Result<Vec<u8>, Bs58DecodeError>)
+        ensures match r { Ok(v) => b58_dec(self.s@) == Some(v@), Err(_) => b58_dec(self.s@) is None } { unimplemented!() } }
+}
